@@ -228,7 +228,7 @@ def cfgLe (c1 : Nat) (n1 s1 : String) (c2 : Nat) (n2 s2 : String) : Bool :=
   else !(s2 < s1)
 
 /-- `sortMergedVirtualServicesByCreationTime` -/
-def sortVS (l : List VS) : List VS := l.mergeSort fun a b => cfgLe a.ctime a.name a.ns b.ctime b.name b.ns
+def sortVS (l : List VS) : List VS := isort (fun a b => cfgLe a.ctime a.name a.ns b.ctime b.name b.ns) l
 
 /-- exportTo of a merged VirtualService: `convertExportToSet` / `copyDefaultExportToSet`
     (`.` becomes the namespace), the mesh default when unset. -/
@@ -456,7 +456,7 @@ def gatewayVirtualServices (m : Mesh) (vss : List VS) (ns : String) : List VS :=
 /-! ### which Sidecar applies (`initSidecarScopes`, `getSidecarScope`) -/
 
 def sortSidecars (l : List Sidecar) : List Sidecar :=
-  let s := l.mergeSort fun a b => cfgLe a.ctime a.name a.ns b.ctime b.name b.ns
+  let s := isort (fun a b => cfgLe a.ctime a.name a.ns b.ctime b.name b.ns) l
   s.filter (·.selector.isSome) ++ s.filter (·.selector.isNone)
 
 /-- `labels.Instance.SubsetOf` -/
